@@ -34,6 +34,9 @@ func Equal(a, b any) bool { //nolint: gocyclo
 		reflect.Uint, reflect.Uint8, reflect.Uint16, reflect.Uint32, reflect.Uint64:
 		return compareInts(ra, rb) == 0
 	case reflect.Float32, reflect.Float64:
+		if c, ok := compareIntFloat(ra, rb); ok {
+			return c == 0
+		}
 		return ra.Convert(float64Type).Float() == rb.Convert(float64Type).Float()
 	case reflect.String:
 		return ra.String() == rb.String()
@@ -83,6 +86,9 @@ func Less(a, b any) bool {
 		reflect.Uint, reflect.Uint8, reflect.Uint16, reflect.Uint32, reflect.Uint64:
 		return compareInts(ra, rb) < 0
 	case reflect.Float32, reflect.Float64:
+		if c, ok := compareIntFloat(ra, rb); ok {
+			return c < 0
+		}
 		return ra.Convert(float64Type).Float() < rb.Convert(float64Type).Float()
 	case reflect.String:
 		return ra.String() < rb.String()
@@ -141,6 +147,44 @@ func compareInts(ra, rb reflect.Value) int {
 		return 1
 	}
 	return 0
+}
+
+// compareIntFloat compares an integer with a float exactly (converting an integer beyond
+// 2^53 to float64 would round it). ok is false unless exactly one operand is an integer.
+func compareIntFloat(ra, rb reflect.Value) (c int, ok bool) {
+	switch {
+	case isIntKind(ra.Kind()) && isFloatKind(rb.Kind()):
+	case isFloatKind(ra.Kind()) && isIntKind(rb.Kind()):
+		c, ok = compareIntFloat(rb, ra)
+		return -c, ok
+	default:
+		return 0, false
+	}
+	f := rb.Float()
+	n, big := asInt64(ra)
+	switch {
+	case f != f: // NaN
+		return 0, false
+	case big || f < -(1<<63):
+		if big && f >= 1<<63 {
+			return 0, false // both beyond int64: the float64 comparison is as good as it gets
+		}
+		return 1, true
+	case f >= 1<<63:
+		return -1, true
+	}
+	t := int64(f) // truncation toward zero; exact for |f| < 2^63
+	switch {
+	case n < t:
+		return -1, true
+	case n > t:
+		return 1, true
+	case f > float64(t):
+		return -1, true
+	case f < float64(t):
+		return 1, true
+	}
+	return 0, true
 }
 
 // asInt64 returns an integer value as an int64; big reports an unsigned value above MaxInt64.
